@@ -44,7 +44,8 @@ def body(c):
         "truncation, YAML node-kind substitution, random bytes (NUL, 0xff, "
         "invalid UTF-8), insertion from per-format keyword dictionaries "
         "(out-of-range dimensions, unknown keywords, duplicate headers), "
-        "splice of two seeds.  Each input is one event validated by "
+        "splice of two seeds, repetition of a keyword / header line with a "
+        "changed numeric argument.  Each input is one event validated by "
         "LoadContractTrace: Fail(errno class, one matching one-line "
         "callback, no object / destination usable) or Ok(self-consistent: "
         "dimensions fit the type, ascending calibration frequencies, all "
